@@ -23,8 +23,11 @@ def unhexList : List Char → Bytes
 def unhex (s : String) : Bytes :=
   if s == "-" then [] else unhexList s.toList
 
-/-- A data field: hex, `-`, or `g<len>.<seed>` = generated bytes (same formula as the harness). -/
-def dataField (s : String) : Bytes :=
+def decBytes (k : Nat) : Bytes := (toString k).toList.map fun c => UInt8.ofNat c.toNat
+
+/-- One segment of a data field (same syntax as `common.rs::data_field`):
+hex | `-` | `g<len>.<seed>` | `r<count>.<hex>` | `n<count>.<start>.<step>.<pre>.<suf>`. -/
+def dataSeg (s : String) : Bytes :=
   match s.toList with
   | 'g' :: r =>
     match (String.ofList r).splitOn "." with
@@ -33,7 +36,24 @@ def dataField (s : String) : Bytes :=
       let seed := sd.toNat?.getD 0
       (List.range len).map fun j => UInt8.ofNat ((seed * 31 + j * 7 + j / 256) % 256)
     | _ => []
+  | 'r' :: r =>
+    match (String.ofList r).splitOn "." with
+    | [c, h] => (List.replicate (c.toNat?.getD 0) (unhex h)).flatten
+    | _ => []
+  | 'n' :: r =>
+    match (String.ofList r).splitOn "." with
+    | [c, st, sp, pre, suf] =>
+      let start := st.toNat?.getD 0
+      let step := sp.toNat?.getD 0
+      let p := unhex pre
+      let q := unhex suf
+      ((List.range (c.toNat?.getD 0)).map fun i => p ++ decBytes (start + i * step) ++ q).flatten
+    | _ => []
   | _ => unhex s
+
+/-- A data field: `+`-joined segments. -/
+def dataField (s : String) : Bytes :=
+  ((s.splitOn "+").map dataSeg).flatten
 
 /-- `key=value` fields of a case line. -/
 def fields (line : String) : List (String × String) :=
